@@ -4,33 +4,79 @@ import (
 	"errors"
 	"fmt"
 	"reflect"
+	"strconv"
 	"strings"
 
 	"github.com/open2b/scriggo"
 	"github.com/open2b/scriggo/native"
 )
 
-// HT is the native type h.T of the generated programs.
+// HT is the native type h.T of the generated programs: every native function is also a method of it.
 type HT struct{}
 
-func (HT) Panic(v int) { panic(v) }
+// HCus is the native type h.Cus: a panic value of a custom error type.
+type HCus struct{ N int }
+
+func (c HCus) Error() string { return "c" + strconv.Itoa(c.N) }
 
 var stopErrs = []error{nil, errors.New("stop-1"), errors.New("stop-2")}
 
+// Stop and Fatal print the marker "S" first: nothing may be printed after it
+func hStop(env native.Env, k int)  { env.Println("S"); env.Stop(stopErrs[k]) }
+func hFatal(env native.Env, v int) { env.Println("S"); env.Fatal(v) }
+func hPanic(v int)                 { panic(v) }
+func hPanicS(v int)                { panic("s" + strconv.Itoa(v)) }
+func hPanicE(v int)                { panic(hErr(v)) }
+func hPanicC(v int)                { panic(HCus{v}) }
+func hErr(v int) error             { return errors.New("e" + strconv.Itoa(v)) }
+func hPrint(env native.Env, x int) { env.Println("O", x) }
+func hNop()                        {}
+func hCall(f func())               { f() }
+func hCallN(n int, f func()) {
+	for i := 0; i < n; i++ {
+		f()
+	}
+}
+
+func (HT) Stop(env native.Env, k int)  { hStop(env, k) }
+func (HT) Fatal(env native.Env, v int) { hFatal(env, v) }
+func (HT) Panic(v int)                 { panic(v) }
+func (HT) PanicS(v int)                { hPanicS(v) }
+func (HT) PanicE(v int)                { hPanicE(v) }
+func (HT) PanicC(v int)                { hPanicC(v) }
+func (HT) Print(env native.Env, x int) { hPrint(env, x) }
+func (HT) Nop()                        {}
+func (HT) Call(f func())               { f() }
+func (HT) CallN(n int, f func())       { hCallN(n, f) }
+
+// HI is the native interface type h.I: the methods of h.T that take no native.Env.
+type HI interface {
+	Panic(int)
+	PanicS(int)
+	PanicE(int)
+	PanicC(int)
+	Nop()
+	Call(func())
+	CallN(int, func())
+	RPanic(int) string
+	RCall(func()) string
+}
+
 var hPackage = native.Packages{"h": native.Package{Name: "h", Declarations: native.Declarations{
-	// Stop and Fatal print the marker "S" first: nothing may be printed after it
-	"Stop":  func(env native.Env, k int) { env.Println("S"); env.Stop(stopErrs[k]) },
-	"Fatal": func(env native.Env, v int) { env.Println("S"); env.Fatal(v) },
-	"Panic": func(v int) { panic(v) },
-	"Print": func(env native.Env, x int) { env.Println("O", x) },
-	"Nop":   func() {},
-	"Call":  func(f func()) { f() },
-	"CallN": func(n int, f func()) {
-		for i := 0; i < n; i++ {
-			f()
-		}
-	},
-	"T": reflect.TypeOf(HT{}),
+	"Stop":   hStop,
+	"Fatal":  hFatal,
+	"Panic":  hPanic,
+	"PanicS": hPanicS,
+	"PanicE": hPanicE,
+	"PanicC": hPanicC,
+	"Err":    hErr,
+	"Print":  hPrint,
+	"Nop":    hNop,
+	"Call":   hCall,
+	"CallN":  hCallN,
+	"T":      reflect.TypeOf(HT{}),
+	"I":      reflect.TypeOf((*HI)(nil)).Elem(),
+	"Cus":    reflect.TypeOf(HCus{}),
 }}}
 
 // outcome is the observable behaviour of one run, in the canonical form of the protocol:
@@ -57,7 +103,9 @@ func dash(s string) string {
 	return s
 }
 
-// eventsOf turns the printed text ("O 5\nR 7\nR nil\nS\n") into the event list.
+// eventsOf turns the printed text ("O 5\nR i 7\nR e e3\nR nil\nS\n") into the event list. A value
+// returned by recover() is printed with the kind its dynamic type has (i, s, e, c): it must be
+// the kind of the value the program panicked with.
 func eventsOf(text string) (string, bool) {
 	var ev []string
 	ok := true
@@ -68,9 +116,13 @@ func eventsOf(text string) (string, bool) {
 			ev = append(ev, "S")
 		case l == "R nil":
 			ev = append(ev, "rn")
-		case strings.HasPrefix(l, "R "):
-			c := valCode(l[2:])
-			ok = ok && !strings.HasPrefix(c, "?")
+		case len(l) > 4 && strings.HasPrefix(l, "R ") && l[3] == ' ':
+			tag, txt := l[2:3], l[4:]
+			c := valCode(txt)
+			if strings.HasPrefix(c, "?") || kindTagOf(txt) != tag {
+				ok = false
+				c = "?" + tag + ":" + strings.TrimPrefix(c, "?")
+			}
 			ev = append(ev, "r"+c)
 		case strings.HasPrefix(l, "O "):
 			ev = append(ev, "o"+l[2:])
@@ -83,67 +135,81 @@ func eventsOf(text string) (string, bool) {
 }
 
 // chainOf walks a *scriggo.PanicError with the public accessors only. It returns the chain
-// oldest first ("3r,5") and a description of anything wrong with the accessor layer.
-func chainOf(pe *scriggo.PanicError) (chain string, problem string) {
-	var links []string
+// oldest first ("3r,5"), the same with the texts of the values ("e3r,5") and a description of
+// anything wrong with the accessor layer.
+func chainOf(pe *scriggo.PanicError) (chain, texts string, problem string) {
+	var links, tlinks []string
 	n := 0
 	defer func() {
 		if r := recover(); r != nil {
-			chain = strings.Join(links, ",")
+			chain, texts = strings.Join(links, ","), strings.Join(tlinks, "\x00")
 			problem = fmt.Sprintf("Next() does not end the chain with nil: accessor call on link %d panics", n)
 		}
 	}()
 	for p := pe; p != nil; p = p.Next() {
 		n++
 		if n > 10000 {
-			return "", "Next() does not reach nil"
+			return "", "", "Next() does not reach nil"
 		}
 		// (no Error()/String() of a foreign message: formatting must not run code of the value)
-		var s string
-		msg := p.Message()
-		if v, ok := msg.(int); ok {
-			s = fmt.Sprint(v)
-			if p.String() != s {
-				problem = "String() differs from Message()"
+		var s, txt, tag string
+		switch msg := p.Message().(type) {
+		case int:
+			txt, tag = strconv.Itoa(msg), "i"
+		case string:
+			txt, tag = msg, "s"
+		case HCus:
+			txt, tag = msg.Error(), "c"
+		default:
+			if rv := reflect.ValueOf(msg); msg != nil && rv.Kind() == reflect.String && strings.HasSuffix(rv.Type().String(), "runtimeError") {
+				txt, tag = rv.String(), "e" // the interpreter's own run-time error (a string type)
+			} else if e, ok := msg.(error); ok && reflect.TypeOf(msg) == reflect.TypeOf(errors.New("")) {
+				txt, tag = e.Error(), "e"
 			}
-		} else if rv := reflect.ValueOf(msg); msg != nil && rv.Kind() == reflect.String && strings.HasSuffix(rv.Type().String(), "runtimeError") {
-			s = valCode(rv.String()) // the interpreter's own run-time error (a string type)
-			if p.String() != rv.String() {
-				problem = "String() differs from Message()"
-			}
-		} else {
-			s = fmt.Sprintf("?%T", msg)
+		}
+		if tag == "" {
+			s = fmt.Sprintf("?%T", p.Message())
 			problem = "message is not a value the program panicked with"
+		} else {
+			s = valCode(txt)
+			if strings.HasPrefix(s, "?") || kindTagOf(txt) != tag {
+				problem = "message is not a value the program panicked with"
+			} else if p.String() != txt {
+				problem = "String() differs from Message()"
+			}
 		}
 		if p.Recovered() {
 			s += "r"
+			txt += "\x01"
 		}
 		links = append([]string{s}, links...)
+		tlinks = append([]string{txt}, tlinks...)
 		_ = p.Path()
 		_ = p.Position()
 	}
-	return strings.Join(links, ","), problem
+	return strings.Join(links, ","), strings.Join(tlinks, "\x00"), problem
 }
 
-// errorTextOf is the text gc prints for a chain given oldest first as (value, recovered).
-func gcTextOf(chain string) string {
+// gcTextOf is the text gc prints for a chain given oldest first as texts (\x00 between links,
+// \x01 after a recovered one).
+func gcTextOf(texts string) string {
 	var b strings.Builder
-	links := strings.Split(chain, ",")
+	links := strings.Split(texts, "\x00")
 	for i := 0; i < len(links); i++ {
 		l := links[i]
-		v := strings.TrimSuffix(l, "r")
+		v := strings.TrimSuffix(l, "\x01")
 		// a run of equal values is printed once, as "[recovered, repanicked]"
 		j := i
-		for j+1 < len(links) && strings.TrimSuffix(links[j+1], "r") == v {
+		for j+1 < len(links) && strings.TrimSuffix(links[j+1], "\x01") == v {
 			j++
 		}
 		if i > 0 {
 			b.WriteString("\t")
 		}
-		b.WriteString("panic: " + valText(v))
+		b.WriteString("panic: " + v)
 		if j > i {
 			b.WriteString(" [recovered, repanicked]")
-		} else if strings.HasSuffix(l, "r") {
+		} else if strings.HasSuffix(l, "\x01") {
 			b.WriteString(" [recovered]")
 		}
 		b.WriteString("\n")
@@ -152,12 +218,22 @@ func gcTextOf(chain string) string {
 	return b.String()
 }
 
+// buildScriggo compiles src; a panic of the compiler is reported as a build error.
+func buildScriggo(src string) (program *scriggo.Program, err error) {
+	defer func() {
+		if r := recover(); r != nil {
+			err = fmt.Errorf("the compiler panics: %v", r)
+		}
+	}()
+	return scriggo.Build(scriggo.Files{"main.go": []byte(src)}, &scriggo.BuildOptions{Packages: hPackage})
+}
+
 // runScriggo builds and runs src with the public API and reports what the host sees.
 func runScriggo(src string) (o outcome) {
 	var out strings.Builder
-	program, err := scriggo.Build(scriggo.Files{"main.go": []byte(src)}, &scriggo.BuildOptions{Packages: hPackage})
+	program, err := buildScriggo(src)
 	if err != nil {
-		return outcome{Res: "builderror", Extra: err.Error()}
+		return outcome{Res: "builderror", Extra: strings.ReplaceAll(err.Error(), " ", "_")}
 	}
 	finish := func() {
 		ev, ok := eventsOf(out.String())
@@ -182,12 +258,12 @@ func runScriggo(src string) (o outcome) {
 	case nil:
 		o.Res = "done"
 	case *scriggo.PanicError:
-		chain, problem := chainOf(e)
+		chain, texts, problem := chainOf(e)
 		o.Res = "panic:" + chain
 		o.Extra = problem
 		if problem == "" {
 			// Error() is documented as "all currently active panics as a string": gc's text without the first "panic: "
-			if want := strings.TrimPrefix(gcTextOf(chain), "panic: "); e.Error() != want && !strings.Contains(want, "repanicked") {
+			if want := strings.TrimPrefix(gcTextOf(texts), "panic: "); e.Error() != want && !strings.Contains(want, "repanicked") {
 				o.Extra = "Error()=" + strings.ReplaceAll(strings.ReplaceAll(e.Error(), "\n", "\\n"), " ", "_")
 			}
 		}
